@@ -280,6 +280,7 @@ def sentinel_premise(prog: Program) -> Dict[str, Tuple[bool, str, str]]:
         st0.env[iv] = I
         pk = Rat.atom(f"self.monthly_peak_{tag}[{I.key()}]")
         st0.signs[pk.key()] = (pk, frozenset("0"))
+        st0.env[f"self.monthly_peak_{tag}[{I.key()}]"] = Rat.const(0)  # the month has no load in this direction: the peak IS 0
         finals = eng.run_block(loop.body, [st0])
         n_paths, bad = 0, None
         for st in finals:
